@@ -1,24 +1,24 @@
 """C05 - reported states are consistent with every conditional simple control."""
-from hypothesis import strategies as st
-
 from ..outcome import fail, inconclusive, passed
 from ..refs import c05_tankgen as G
 
 ID = 'C05'
 LEVEL = 'exploration'
-CASES = {'quick': 400, 'thorough': 6000}
-CASE_TIMEOUT = 30
+CASES = {'quick': 320, 'thorough': 6000}
+CASE_TIMEOUT = 20
+SHRINK_BUDGET = {'quick': 40, 'thorough': 240}
 TECHNIQUE = ('property-based testing (Hypothesis): generated tank networks with 1-6 conditional simple controls, simulated '
              'with WNTRSimulator (report step ALL); every control is re-evaluated on every reported row by an own '
              'reference (threshold comparison, priority/conflict rule, the three exceptions of the statement demonstrated '
              'from the reported heads and levels, crossing time from an own Euler integration)')
-RULE = ('Generated case (refs/c05_tankgen.py) = reservoir feeding 1-4 junctions through a head pump or a long pipe, 1-3 '
-        'tanks (cylindrical / volume curve) with 1-3 links each (pipe, CV pipe, pump; in or out), optional TCV/PRV/FCV '
-        'with bypass, demand patterns 0.05-3.6 that drive the levels across their range, duration 12-72 h, hydraulic '
+RULE = ('Generated case (refs/c05_tankgen.py) = reservoir feeding 1-4 junctions (1 case in 8: the first tank directly) '
+        'through a head pump or a long pipe, 1-3 tanks (cylindrical / volume curve) with 1-3 links each (pipe, CV pipe, '
+        'pump; in or out; sometimes a tank-to-tank pipe), optional TCV/PRV/FCV with bypass, demand patterns 0.05-3.6 that drive the levels across their range, duration 12-72 h, hydraulic '
         'step 900-7200 s, plus 1-6 simple controls: tank level/pressure/head above/below a threshold (also exactly at '
         'min/max level), hysteresis pairs, pairs of thresholds 0-5 cm apart (both crossed within one step), conflicting '
         'pairs with explicit priorities 0-6, junction-pressure controls and pressure hysteresis pairs; targets: feed '
-        'pump/pipe, tank links (pipes, CV pipes, pumps), other pipes (status), valves (status or setting). '
+        'pump/pipe, tank links (pipes, CV pipes, pumps), other pipes (status), valves (status or setting). Plus 8 (thorough '
+        '16) enumerated cases in which a junction pressure ramps by ~2 cm per row across 3-decimal thresholds. '
         'Non-trivial = converged run in which at least one control changes its truth value between two reported rows; '
         'distinct = SHA-1 of the case.')
 ASSUMPTIONS = ['only runs WNTR reports as converged are judged (not converged / exceeded trials / exception = inconclusive)',
@@ -32,8 +32,11 @@ ASSUMPTIONS = ['only runs WNTR reports as converged are judged (not converged / 
                'the partial-step clause is demanded only where the reported state of the target at the previous row differs '
                'from the command and no exception could have held the link closed at that row (the user status is then '
                'known to differ), and the target shows the commanded state in the row where the condition is first true',
-               'thresholds of two opposite controls on one tank and one link are generated >= 8 % of the range apart '
-               '(equal thresholds make any engine switch every 1-2 s)']
+               'two controls on one tank and one link with opposite directions and opposite commands are generated as a '
+               'proper hysteresis band (above-threshold >= below-threshold + 10 % of the range): touching or overlapping '
+               'bands make any engine switch the link every 1-2 s for the rest of the run',
+               'tank PRESSURE conditions on volume-curve tanks are not generated (TankLevelCondition documents them as not '
+               'implemented); LEVEL and HEAD are']
 TOLERANCES = {'threshold_skip': 1e-6,
               'setting_abs': 1e-9,
               'crossing': '2 s * |net inflow of the previous row| (+1e-9*A m3): backtrack is floor() of whole seconds and '
